@@ -40,16 +40,13 @@ def run(sc, keep_sim=False, hold=None):
             stacks.append(st)
             for sub in sd.get('subs', []):
                 cb = st.cb(sub['cid'], 'sub', script=_script(sub.get('script'), st))
-                st.ecu.subscribe(cb, sub.get('filt'))
+                st.subscribe(cb, sub.get('filt'))
             for ci, cd in enumerate(sd.get('cas', [])):
-                nm = j1939.Name(value=cd['name'])
-                ca = j1939.ControllerApplication(nm, cd.get('addr'), bypass_address_claim=cd.get('bypass', False))
-                st.ecu.add_ca(controller_application=ca)
-                st.cas.append(ca)
+                st.add_ca(cd['name'], cd.get('addr'), cd.get('bypass', False))
                 for cid in cd.get('subs', []):
-                    ca.subscribe(st.cb(cid, 'sub'))
+                    st.ca_subscribe(ci, st.cb(cid, 'sub'))
                 for cid in cd.get('req', []):
-                    ca.subscribe_request(st.cb(cid, 'req'))
+                    st.ca_subscribe_request(ci, st.cb(cid, 'req'))
         if hold:
             install_hold(sim, stacks, hold)
         for ev in sc.get('script', []):
